@@ -427,7 +427,7 @@ def coq_compare(run, cases, tag):
         body = PRE + str_defs() + terms + "Definition cases := [" + \
             "; ".join("c%d" % (fi + j) for j in range(len(chunk))) + \
             "].\nEval vm_compute in (bad cases, ncov cases).\n"
-        files.append(("c14_%s_%04d" % (tag, fi // per), body))
+        files.append(("c14_%d_%s_%04d" % (os.getpid(), tag, fi // per), body))
     res = common.run_cases_parallel(files, timeout=900)
     badidx, ncov, broken = [], 0, []
     pat = r"=\s*\(\s*\[(.*?)\]\s*,\s*(\d+)(?:%nat)?\s*\)\s*:\s*list Z \* nat"
@@ -460,7 +460,7 @@ def coq_show(run, c):
                 "Eval vm_compute in (map (fun m => option_map (map payload) (rebuild %s %s b (repl_of m) sbl)) %s).\n" % (
                     blk, cl(o["sbl"], lambda b: cl(b, cs, "string"), "(list string)"), cbool(c["push0"]), cbool(c["fix1"]),
                     cl(o.get("masks", []), lambda m: cl(m, lambda k: "%d%%nat" % k, "nat"), "(list nat)"))
-        ok, outp = common.run_cases("c14_show", PRE + str_defs() + body0, timeout=120)
+        ok, outp = common.run_cases("c14_%d_show" % os.getpid(), PRE + str_defs() + body0, timeout=120)
         return re.sub(r"\s+", " ", outp)[:3000]
     body = PRE + str_defs() + """Definition b := %s.
 Definition pl := optimizable_plain %s b.
@@ -473,7 +473,7 @@ Eval vm_compute in (shape_ok b, first_ok %s b).
        cbool(c["sto"]), cbool(c["part"]), c["mb"], cbool(c["sto"]), cbool(c["part"]), c["mb"],
        cbool(c["push0"]), cbool(c["fix1"]), cl(o.get("masks", []), lambda m: cl(m, lambda k: "%d%%nat" % k, "nat"), "(list nat)"),
        cbool(c["push0"]))
-    ok, outp = common.run_cases("c14_show", body, timeout=120)
+    ok, outp = common.run_cases("c14_%d_show" % os.getpid(), body, timeout=120)
     return re.sub(r"\s+", " ", outp)[:3000]
 
 
@@ -781,7 +781,7 @@ def check(run):
     cdir = os.path.join(common.COQ, "Cases")          # only this check's files (the directory is shared)
     if os.path.isdir(cdir):
         for f in os.listdir(cdir):
-            if f.startswith("c14_") or f.startswith(".c14_"):
+            if f.startswith("c14_%d_" % os.getpid()) or f.startswith(".c14_%d_" % os.getpid()):
                 try:
                     os.remove(os.path.join(cdir, f))
                 except OSError:
